@@ -32,7 +32,7 @@ theorem C16_stop (cfg : Config) (m : MatcherI) (inp : Bytes) (σ : Script) (k : 
     (R0.events.length ≤ k + 1 →
       R.events = R0.events ∧ (R.result = .err ↔ (k + 1 = R0.events.length ∧ σ k = .err))) := by
   intro R R0
-  have h := run_prefix hk (st0 := Core.new cfg true) rfl (slicePre_wb hk cfg m inp)
+  have h := run_prefix cfg hk (st0 := Core.new cfg true) rfl (slicePre_wb hk cfg m inp)
   rw [← sliceByLine_eq, ← sliceByLine_eq] at h
   exact h
 
@@ -48,7 +48,7 @@ theorem C16_stop_multiline (cfg : Config) (m : MatcherI) (inp : Bytes) (σ : Scr
     (R0.events.length ≤ k + 1 →
       R.events = R0.events ∧ (R.result = .err ↔ (k + 1 = R0.events.length ∧ σ k = .err))) := by
   intro R R0
-  have h := run_prefix hk (st0 := Core.new cfg true) rfl (mlPre_wb hk cfg m inp)
+  have h := run_prefix cfg hk (st0 := Core.new cfg true) rfl (mlPre_wb hk cfg m inp)
   rw [← multiLine_eq, ← multiLine_eq] at h
   exact h
 
